@@ -46,6 +46,8 @@ def run(ctx):
     ctx.do(rule_version_scope)
     ctx.do(rule_builtin_parity)
     ctx.do(rule_type_grammar)
+    from .hidden_state import rule_no_hidden_state
+    ctx.do(rule_no_hidden_state, "C19.history-independence")
 
 
 def _registry_facts(fi):
